@@ -391,7 +391,7 @@ func (e *Engine) lookup(st *State, fr *Frame, in *ssa.Lookup) bool {
 	// string indexing handled by ssa.Index; Lookup on string yields byte
 	if xs, ok := x.(VSym); ok && xs.T.Sort == SStr {
 		if is, ok := idx.(VSym); ok {
-			fr.regs[in] = sym(App(SInt, "s.at", xs.T, is.T))
+			st.wregs(fr)[in] = sym(App(SInt, "s.at", xs.T, is.T))
 			return true
 		}
 	}
@@ -440,9 +440,9 @@ func (e *Engine) lookup(st *State, fr *Frame, in *ssa.Lookup) bool {
 				}
 				st2.heap[m.Cell] = o2
 				if in.CommaOk {
-					fr.regs[in] = VTuple{[]Value{e.zeroOf(mt.Elem()), sym(TFalse)}}
+					st2.wregs(fr)[in] = VTuple{[]Value{e.zeroOf(mt.Elem()), sym(TFalse)}}
 				} else {
-					fr.regs[in] = e.zeroOf(mt.Elem())
+					st2.wregs(fr)[in] = e.zeroOf(mt.Elem())
 				}
 				st2.addTrace(TraceEv{Kind: "maplookup.absent", Text: key, Pos: e.pos(in.Pos())})
 				e.runFrom(st2, fr, b, idxI+1)
@@ -505,9 +505,9 @@ func (e *Engine) lookup(st *State, fr *Frame, in *ssa.Lookup) bool {
 		st.notes = append(st.notes, "unmodelled map lookup at "+e.pos(in.Pos()))
 	}
 	if in.CommaOk {
-		fr.regs[in] = VTuple{[]Value{val, sym(found)}}
+		st.wregs(fr)[in] = VTuple{[]Value{val, sym(found)}}
 	} else {
-		fr.regs[in] = val
+		st.wregs(fr)[in] = val
 	}
 	return true
 }
@@ -694,8 +694,19 @@ func (e *Engine) typeAssert(st *State, fr *Frame, in *ssa.TypeAssert) bool {
 	}
 	if okT.S == "" {
 		// symbolic interface value
-		okT = e.fresh(st, "typeis", SBool)
+		if u, ok := x.(VUnknown); ok && u.ID != 0 {
+			tn := sanitize(in.AssertedType.String())
+			okT = st.declare(fmt.Sprintf("unk.%d.is.%s", u.ID, tn), SBool)
+		} else {
+			okT = e.fresh(st, "typeis", SBool)
+		}
 		val = e.havoc(st, in.AssertedType, "asserted")
+		if typeIsPkg(in.AssertedType, "github.com/mattn/go-sqlite3", "Error") {
+			// A-BUSY: whatever SQLite error it is, it is not BUSY/LOCKED
+			if dv, ok := e.dbError(st).(VIface); ok {
+				val = dv.V
+			}
+		}
 	}
 	if val == nil {
 		val = e.zeroOf(in.AssertedType)
@@ -704,7 +715,7 @@ func (e *Engine) typeAssert(st *State, fr *Frame, in *ssa.TypeAssert) bool {
 		if !okT.IsConst() {
 			// keep value consistent with ok
 		}
-		fr.regs[in] = VTuple{[]Value{val, sym(okT)}}
+		st.wregs(fr)[in] = VTuple{[]Value{val, sym(okT)}}
 		return true
 	}
 	if okT.IsFalse() {
@@ -717,7 +728,7 @@ func (e *Engine) typeAssert(st *State, fr *Frame, in *ssa.TypeAssert) bool {
 		e.panicPath(st2, fr.depth, fmt.Sprintf("type assertion to %s may fail at %s", in.AssertedType, e.pos(in.Pos())))
 		st.assume(okT)
 	}
-	fr.regs[in] = val
+	st.wregs(fr)[in] = val
 	return true
 }
 
@@ -762,7 +773,7 @@ func (e *Engine) rangeInit(st *State, fr *Frame, in *ssa.Range) bool {
 		e.endPath(st)
 		return false
 	}
-	fr.regs[in] = VAbs{Kind: "iter", ID: e.nextID(), Data: it}
+	st.wregs(fr)[in] = VAbs{Kind: "iter", ID: e.nextID(), Data: it}
 	return true
 }
 
@@ -793,9 +804,9 @@ func (e *Engine) rangeNext(st *State, fr *Frame, in *ssa.Next) bool {
 			}
 		}
 		st2 := st.clone()
-		fr.regs[in] = VTuple{[]Value{sym(TFalse), e.zeroOf(tt.At(1).Type()), e.zeroOf(tt.At(2).Type())}}
+		st2.wregs(fr)[in] = VTuple{[]Value{sym(TFalse), e.zeroOf(tt.At(1).Type()), e.zeroOf(tt.At(2).Type())}}
 		e.runFrom(st2, fr, b, idxI+1)
-		fr.regs[in] = VTuple{[]Value{sym(TTrue), e.havoc(st, it.arbitrary.Key(), "rangekey"), e.havoc(st, it.arbitrary.Elem(), "rangeval")}}
+		st.wregs(fr)[in] = VTuple{[]Value{sym(TTrue), e.havoc(st, it.arbitrary.Key(), "rangekey"), e.havoc(st, it.arbitrary.Elem(), "rangeval")}}
 		return true
 	}
 	// the iterator position is path state: keep it in the state's visits map keyed by iterator id
@@ -804,9 +815,9 @@ func (e *Engine) rangeNext(st *State, fr *Frame, in *ssa.Next) bool {
 	if pos < len(it.keys) {
 		st.visits[key] = pos + 1
 		var kv Value = sym(it.keys[pos])
-		fr.regs[in] = VTuple{[]Value{sym(TTrue), kv, it.vals[pos]}}
+		st.wregs(fr)[in] = VTuple{[]Value{sym(TTrue), kv, it.vals[pos]}}
 	} else {
-		fr.regs[in] = VTuple{[]Value{sym(TFalse), e.zeroOf(tt.At(1).Type()), e.zeroOf(tt.At(2).Type())}}
+		st.wregs(fr)[in] = VTuple{[]Value{sym(TFalse), e.zeroOf(tt.At(1).Type()), e.zeroOf(tt.At(2).Type())}}
 	}
 	return true
 }
